@@ -122,6 +122,7 @@ type funcInfo struct {
 	calls    []callSite
 	acquires map[string]token.Pos // locks acquired directly (any mode)
 	acqEdges []edgeRec
+	litEdges []edgeRec // held lock -> lock acquired inside a function literal passed as an argument (it may run inline)
 }
 
 type pkgInfo struct {
@@ -777,6 +778,24 @@ func (w *walker) call(c *ast.CallExpr, ls lockset, deferred bool) {
 	}
 	for _, arg := range c.Args {
 		w.expr(arg, ls, false)
+		// a function literal handed to a callee while locks are held may be run by that callee before it returns
+		// (a substitute AfterFunc that fires zero delays inline, a collector that calls back): for the lock ORDER its
+		// acquisitions count as made under the caller's locks
+		if fl, ok := arg.(*ast.FuncLit); ok && !deferred {
+			held := join(ls, w.f.entry)
+			if len(held) > 0 {
+				ast.Inspect(fl.Body, func(n ast.Node) bool {
+					if ce, ok := n.(*ast.CallExpr); ok {
+						if name, op, ok := w.lockCall(ce); ok && (op == "Lock" || op == "RLock") {
+							for h := range held {
+								w.f.litEdges = append(w.f.litEdges, edgeRec{h, name, w.f.key + " (function literal argument)", w.pos(ce.Pos())})
+							}
+						}
+					}
+					return true
+				})
+			}
+		}
 	}
 	if sel, ok := c.Fun.(*ast.SelectorExpr); ok && sel.Sel.Name == "Do" && len(c.Args) == 1 {
 		if tv, ok := w.in.Types[sel.X]; ok && isNamed(tv.Type, "sync", "Once") {
@@ -877,7 +896,7 @@ func (a *analysis) run() {
 	for round := 0; round < 6; round++ {
 		for _, k := range a.order {
 			f := a.funcs[k]
-			f.accesses, f.calls, f.acqEdges, f.acquires = nil, nil, nil, nil
+			f.accesses, f.calls, f.acqEdges, f.acquires, f.litEdges = nil, nil, nil, nil, nil
 			w := &walker{a: a, f: f, in: f.pkg.info}
 			w.block(f.decl.Body.List, lockset{})
 		}
@@ -970,6 +989,7 @@ func emitAccess(repo, out, table string) {
 			accs = append(accs, ac)
 		}
 		edges = append(edges, f.acqEdges...)
+		edges = append(edges, f.litEdges...)
 		for _, cs := range f.calls {
 			for _, callee := range cs.callees {
 				for l := range acq[callee] {
